@@ -321,10 +321,12 @@ Proof.
     assert (Hin : In T (filter (fun n => String.eqb (short_name n) s) (names tr))) by (rewrite Ef; left; reflexivity).
     apply filter_In in Hin. tauto.
 Qed.
-Lemma resolve_sel_in tr q T : resolve_sel tr q = Ok T -> In T (names tr).
+Lemma resolve_sel_in tr q T : resolve_sel tr q = Ok T -> In T (names (sel_tree tr q)).
 Proof.
-  destruct q as [t|s]; cbn [resolve_sel]; [|apply resolve_in].
-  unfold has_type. destruct (memb t (names tr)) eqn:E; [|discriminate]. intros H. inversion H; subst. apply memb_In. exact E.
+  destruct q as [t|s|cts t]; cbn [resolve_sel sel_tree]; [|apply resolve_in|].
+  - unfold has_type. destruct (memb t (names tr)) eqn:E; [|discriminate]. intros H. inversion H; subst. apply memb_In. exact E.
+  - unfold has_type. destruct (memb t (names (foreign_tree cts))) eqn:E; [|discriminate].
+    intros H. inversion H; subst. apply memb_In. exact E.
 Qed.
 Lemma resolve_full tr T : has_type tr T = true -> resolve tr T = Ok T.
 Proof. unfold resolve. intros ->. reflexivity. Qed.
@@ -341,6 +343,21 @@ Proof.
   intros H. inversion H; subst. cbn [wf_tree]. repeat split; [|eapply resolve_in; exact Er|exact W].
   intros Hin. apply memb_In in Hin. unfold has_type in En. congruence.
 Qed.
+
+(* every other TypeSystem object holds a well-formed tree too, whatever create_type calls were made on it *)
+Lemma root_tree_wf : wf_tree root_tree.
+Proof. cbn [root_tree wf_tree names map]. repeat split. intros []. Qed.
+Lemma foreign_step_wf tr c : wf_tree tr -> wf_tree (foreign_step tr c).
+Proof.
+  intros W. unfold foreign_step. destruct (create_type tr (fst c) (snd c)) as [tr'| |] eqn:E; try exact W.
+  eapply create_type_wf; eassumption.
+Qed.
+Lemma fold_foreign_wf cts : forall tr, wf_tree tr -> wf_tree (fold_left foreign_step cts tr).
+Proof. induction cts as [|c r IH]; cbn [fold_left]; intros tr W; [exact W|]. apply IH. apply foreign_step_wf. exact W. Qed.
+Theorem foreign_tree_wf cts : wf_tree (foreign_tree cts).
+Proof. apply fold_foreign_wf. exact root_tree_wf. Qed.
+Lemma sel_tree_wf tr q : wf_tree tr -> wf_tree (sel_tree tr q).
+Proof. intros W. destruct q; cbn [sel_tree]; try exact W. apply foreign_tree_wf. Qed.
 
 (* creating a type leaves the subtype relation among the existing types as it was *)
 Lemma parent_cons_old n q tr x : In x (names tr) -> ~ In n (names tr) -> parent ((n, q) :: tr) x = parent tr x.
@@ -690,7 +707,7 @@ Proof.
     destruct (nth_error ah h) as [v|]; [|solveR].
     pose proof (views_lookup _ _ v V) as HL. destruct (alookup v cv) as [i|], (alookup v av) as [b|]; try contradiction; [|solveR].
     destruct (resolve_sel at' q) as [T|e|]; [|solveR|solveR].
-    destruct (select_inv at' T order i b W HL) as (i' & l & E & HI & _ & HP).
+    destruct (select_inv (sel_tree at' q) T order i b (sel_tree_wf _ q W) HL) as (i' & l & E & HI & _ & HP).
     cbn [p_select cpl apl]. rewrite E.
     split; [unfold put_view; solveR; apply views_aset; assumption|exact HP].
   - (* select_all *)
@@ -765,12 +782,13 @@ Theorem select_spec lenient ops h q order :
   let c := fst (crun lenient ops) in let a := fst (arun lenient ops) in
   forall v idx T, cur_view c h = Some (v, idx) -> resolve_sel (s_tree c) q = Ok T ->
   exists c' l, step cpl c (OSelect h q order) = (c', OList l) /\
-    Permutation l (map fs_ent (filter (fun f => subb (s_tree c) (f_type f) T) (bag_of a v))) /\
-    (forall D, descendants (s_tree c) T = Some D -> Permutation order D -> l = select_in order idx).
+    Permutation l (map fs_ent (filter (fun f => subb (sel_tree (s_tree c) q) (f_type f) T) (bag_of a v))) /\
+    (forall D, descendants (sel_tree (s_tree c) q) T = Some D -> Permutation order D -> l = select_in order idx).
 Proof.
   cbv zeta. intros v idx T Hc Hr. destruct (history_refines lenient ops) as [HR _].
-  destruct (cur_view_inv _ _ _ _ _ HR Hc) as (_ & _ & _ & Hi). pose proof HR as (_ & _ & _ & W & _).
-  destruct (select_inv (s_tree (fst (crun lenient ops))) T order idx _ W Hi) as (i' & l & E & _ & _ & HP).
+  destruct (cur_view_inv _ _ _ _ _ HR Hc) as (_ & _ & _ & Hi). pose proof HR as (_ & _ & _ & W0 & _).
+  pose proof (sel_tree_wf _ q W0) as W.
+  destruct (select_inv (sel_tree (s_tree (fst (crun lenient ops))) q) T order idx _ W Hi) as (i' & l & E & _ & _ & HP).
   cbn [step]. rewrite Hc, Hr. cbn [p_select cpl]. rewrite E. eexists. exists l. split; [reflexivity|]. split; [exact HP|].
   intros D HD Hperm. unfold idx_select in E. rewrite HD in E. inversion E; subst.
   destruct (descendants_spec _ T W) as (D' & HD' & Hnd & _). rewrite HD in HD'. inversion HD'; subst D'.
@@ -802,9 +820,40 @@ Theorem select_name_forms_agree {P} (pl : payload P) (st : state P) h order T :
     filter (fun n => String.eqb (short_name n) s) (names (s_tree st)) = [T] ->
     step pl st (OSelect h (ByName s) order) = step pl st (OSelect h (ByType T) order).
 Proof.
-  intros HT. split; [|intros s H1 H2 H3]; cbn [step resolve_sel]; rewrite HT.
+  intros HT. split; [|intros s H1 H2 H3]; cbn [step resolve_sel sel_tree]; rewrite HT.
   - rewrite (resolve_full _ _ HT). reflexivity.
   - rewrite (resolve_short _ _ _ H1 H2 H3). reflexivity.
+Qed.
+
+(* a Type object of another type system: the subtype relation the result follows is that of the object's own type
+   system (closure of its supertype map, which its descendants walk computes), whatever the CAS's type system holds *)
+Theorem select_foreign_spec lenient ops h cts T order :
+  let c := fst (crun lenient ops) in let a := fst (arun lenient ops) in let ft := foreign_tree cts in
+  forall v idx, cur_view c h = Some (v, idx) -> has_type ft T = true ->
+  (exists D, descendants ft T = Some D /\ NoDup D /\ forall x, In x D <-> sub ft x T) /\
+  exists c' l, step cpl c (OSelect h (ByForeign cts T) order) = (c', OList l) /\
+    Permutation l (map fs_ent (filter (fun f => subb ft (f_type f) T) (bag_of a v))) /\
+    (forall f, subb ft (f_type f) T = true <-> sub ft (f_type f) T).
+Proof.
+  cbv zeta. intros v idx Hc HT. split; [apply descendants_spec; apply foreign_tree_wf|].
+  assert (Hr : resolve_sel (s_tree (fst (crun lenient ops))) (ByForeign cts T) = Ok T) by (cbn [resolve_sel]; rewrite HT; reflexivity).
+  destruct (select_spec lenient ops h (ByForeign cts T) order v idx T Hc Hr) as (c' & l & E & HP & _).
+  exists c', l. split; [exact E|]. split; [exact HP|]. intros f. apply subb_spec. apply foreign_tree_wf.
+Qed.
+(* ... and a Type object of a type system that holds the same tree is as good as the CAS's own *)
+Theorem select_foreign_same_tree {P} (pl : payload P) (st : state P) h cts T order :
+  foreign_tree cts = s_tree st -> has_type (s_tree st) T = true ->
+  step pl st (OSelect h (ByForeign cts T) order) = step pl st (OSelect h (ByType T) order).
+Proof. intros E HT. cbn [step resolve_sel sel_tree]. rewrite E, HT. reflexivity. Qed.
+(* the CAS's own type system plays no part when a foreign Type object is passed *)
+Theorem select_foreign_ignores_own_tree {P} (pl : payload P) l tr tr' vs hs h cts T order :
+  snd (step pl (mkSt l tr vs hs) (OSelect h (ByForeign cts T) order)) =
+  snd (step pl (mkSt l tr' vs hs) (OSelect h (ByForeign cts T) order)).
+Proof.
+  cbn [step resolve_sel sel_tree]. unfold cur_view. cbn [s_handles s_views s_tree].
+  destruct (nth_error hs h) as [v|]; [|reflexivity]. destruct (alookup v vs) as [p|]; [|reflexivity].
+  destruct (has_type (foreign_tree cts) T); [|reflexivity].
+  destruct (p_select pl (foreign_tree cts) T order p) as [[p' r]|]; reflexivity.
 Qed.
 
 Theorem per_type_sorted lenient ops h q order c' l t :
@@ -816,7 +865,7 @@ Proof.
   destruct (cur_view (fst (crun lenient ops)) h) as [[v idx]|] eqn:Hc; [|discriminate].
   destruct (cur_view_inv _ _ _ _ _ HR Hc) as (_ & _ & _ & Hi).
   destruct (resolve_sel _ q) as [T| |]; try discriminate. cbn [p_select cpl]. unfold idx_select.
-  destruct (descendants_spec _ T W) as (D & -> & Hnd & _). intros H. inversion H; subst.
+  destruct (descendants_spec _ T (sel_tree_wf _ q W)) as (D & -> & Hnd & _). intros H. inversion H; subst.
   eapply select_in_sorted; [apply iter_order_ok; exact Hnd|exact Hi].
 Qed.
 Theorem per_type_sorted_all lenient ops h c' l t :
@@ -870,7 +919,7 @@ Proof.
   - destruct (add_loop pl (addable st) l p). cbn [fst put_view s_views]. rewrite alookup_aset, E. reflexivity.
   - destruct (p_remove pl f p). cbn [fst put_view s_views]. rewrite alookup_aset, E. reflexivity.
   - destruct (resolve_sel (s_tree st) q); try reflexivity.
-    destruct (p_select pl (s_tree st) a order p) as [[p' l]|]; [|reflexivity]. cbn [fst put_view s_views]. rewrite alookup_aset, E. reflexivity.
+    destruct (p_select pl (sel_tree (s_tree st) q) a order p) as [[p' l]|]; [|reflexivity]. cbn [fst put_view s_views]. rewrite alookup_aset, E. reflexivity.
   - reflexivity.
 Qed.
 
